@@ -96,6 +96,17 @@ def _instrument_coordinator(build, path: str, seed) -> None:
         return orig_submit(self, graph, sccs)
     BM.submit_to_workers = submit_to_workers
 
+    if seed is not None and hasattr(build, "ready_to_read"):
+        import time as _time
+        prng = random.Random(f"poll:{seed}")
+        orig_rtr = build.ready_to_read
+
+        def ready_to_read(conns, timeout=None):
+            # a slow coordinator: replies of several workers may be pending in the same poll
+            _time.sleep(prng.choice([0, 0, 0.05, 0.15, 0.4]))
+            return orig_rtr(conns, timeout)
+        build.ready_to_read = ready_to_read
+
     orig_read = build.SccResponseMessage.read.__func__
 
     def read(cls, buf):
